@@ -193,7 +193,10 @@ class RecorderRoles(object):
             if k not in self.key_builders:
                 raise AnalysisError('anchor-lost role=%s-key-builder' % k)
         # ---- record helpers
-        self.record_data = self._m('_record_data') if c.lookup('_record_data') else None
+        rds = [m for m in c.methods.values() if any(
+            isinstance(n, ast.Assign) and isinstance(n.targets[0], ast.Subscript) and _self_attr(n.targets[0].value) == self.active
+            for n in walk_own(m.node))]
+        self.record_data = self._onef('record-data (stores into the active recording)', rds)
         self.record_output = None
         for m in c.methods.values():
             if any(isinstance(n, ast.Call) and isinstance(n.func, ast.Attribute) and n.func.attr == 'append' and
